@@ -352,7 +352,7 @@ class Report:
         log("  " + what[:2000])
 
     def known_finding(self, k):
-        line = "KNOWN-FINDING: property=%s %s" % (self.pid, k["what"])
+        line = "KNOWN-FINDING: property=%s %s" % (k.get("property", self.pid), k["what"])
         if line not in self.known:
             self.known.append(line)
             log(line)
